@@ -29,6 +29,11 @@ def account(v, results, prop_label, types=None, what="kernel output differs from
                             (f"case {r['id']} does not build: " if harness else f"case {r['id']}, accepted on the pinned tree, is rejected: ") + r.get("error", "")[:160],
                             {"case": r["id"], "code": r["code"]}, no_input=harness)
             continue
+        if r["status"] == "timeout" and r["id"].startswith(("rnd", "rnx", "rne")):
+            # a randomly generated case on which compilation or the oracle does not finish within the time limit: not compared
+            # (counted; a pinned case that times out is still reported)
+            st["timeouts"] = st.get("timeouts", 0) + 1
+            continue
         if r["status"] != "ok":
             v.oblige(False)
             v.violation(f"oracle-run:{r['id']}", f"case {r['id']}: {r['status']} {r.get('error','')[:200]}",
